@@ -511,3 +511,32 @@ package gomavlib
 //@              logCallee(3, "(*message.ReadWriter).CRCExtra") && byte(logRetInt(3, 0)) == 148
 //@   canary   err == nil
 //@   modifies *sr, ghost:log
+
+// periodic cleanup of the rate-limit table (closure of run): only entries at least 30 s old are forgotten
+//@ func (*nodeStreamRequest).run$1 captures (sr *nodeStreamRequest, now time.Time)
+//@   requires sr != nil && sr.lastRequests != nil
+//@   ensures  [locked-around-the-sweep] logCallee(0, "sync.Mutex.Lock") && logCallee(logLen()-1, "sync.Mutex.Unlock")
+//@   modifies *sr.lastRequests, ghost:log
+//@   loop 0 invariant sr.lastRequests != nil
+//@   loop 0 body-ensures [only-expired-entries-are-forgotten] logCallee(0, "range.next") ==>
+//@              (mapHasKey(sr.lastRequests, logArg(0, 1).(streamNode)) ==
+//@               (old(mapHasKey(sr.lastRequests, logArg(0, 1).(streamNode))) && timeSub(now, old(sr.lastRequests[logArg(0, 1).(streamNode)])) < 30*time.Second))
+//@   loop 0 modifies *sr.lastRequests
+
+//@ func (*nodeStreamRequest).run
+//@   requires sr != nil && sr.lastRequests != nil && sr.done != nil
+//@   ensures  [stops-only-on-termination] logIs(logLen()-3, "recv", "terminate") && logCallee(logLen()-2, "time.Ticker.Stop") && logIs(logLen()-1, "close", "done")
+//@   ensures  [sweeps-every-30-seconds] logCallee(0, "time.NewTicker") && logArgDuration(0, 0) == 30*time.Second
+//@   loop 0 invariant sr.lastRequests != nil && logCallee(0, "time.NewTicker") && logArgDuration(0, 0) == 30*time.Second
+//@   loop 0 modifies *sr.lastRequests
+//@   modifies *sr.lastRequests, ghost:log
+
+//@ func (*nodeStreamRequest).close
+//@   requires sr != nil && sr.terminate != nil
+//@   ensures  logLen() == 2 && logIs(0, "close", "terminate") && logIs(1, "recv", "done")
+//@   modifies ghost:log
+
+//@ func (*nodeHeartbeat).close
+//@   requires h != nil && h.terminate != nil
+//@   ensures  logLen() == 2 && logIs(0, "close", "terminate") && logIs(1, "recv", "done")
+//@   modifies ghost:log
